@@ -155,6 +155,12 @@ class Fn:
         err(e, f'{d}: constant of type {type(obj).__name__} not supported')
 
     def ex(self, e):
+        if self.objmode and isinstance(e, ast.Attribute) and isinstance(e.value, ast.Attribute) and e.value.attr == 'f' \
+                and isinstance(e.value.value, ast.Name) and e.value.value.id == 'self':
+            return f'(py_getattr (py_getattr ({self.fld("self")} l) "f") {coq_str(e.attr)})'
+        if self.objmode and isinstance(e, ast.Attribute) and isinstance(e.value, ast.Name) and e.value.id in self.params \
+                and e.value.id != 'self' and e.attr in ('year', 'month', 'day', 'hour', 'minute', 'second'):
+            return f'(py_getattr ({self.fld(e.value.id)} l) {coq_str(e.attr)})'
         if isinstance(e, ast.Constant):
             v = e.value
             if v is None:
@@ -199,6 +205,13 @@ class Fn:
             if e.attr in ('CID', 'cls', 'id', 'frames_rx'):
                 return f'(py_attr {self.ex(e.value)} {coq_str(e.attr)})'
             err(e, f'attribute .{e.attr} not supported')
+        if isinstance(e, ast.UnaryOp) and isinstance(e.op, ast.USub):
+            return f'(py_neg {self.ex(e.operand)})'
+        if isinstance(e, ast.UnaryOp) and isinstance(e.op, ast.Invert):
+            return f'(py_invert {self.ex(e.operand)})'
+        if isinstance(e, ast.Call) and dotted(e.func) == 'int' and len(e.args) == 1 and isinstance(e.args[0], ast.BinOp) \
+                and isinstance(e.args[0].op, ast.Div):
+            return f'(py_trunc_div {self.ex(e.args[0].left)} {self.ex(e.args[0].right)})'
         if isinstance(e, ast.IfExp):
             return f'(if {self.tst(e.test)} then {self.ex(e.body)} else {self.ex(e.orelse)})'
         if isinstance(e, ast.Subscript):
@@ -214,6 +227,8 @@ class Fn:
         if isinstance(e, ast.BinOp):
             if isinstance(e.op, ast.BitAnd):
                 return f'(py_and {self.ex(e.left)} {self.ex(e.right)})'
+            if isinstance(e.op, ast.BitOr):
+                return f'(py_or {self.ex(e.left)} {self.ex(e.right)})'
             if isinstance(e.op, ast.Mult) and isinstance(e.left, ast.Call) and dotted(e.left.func) == 'bytearray' and len(e.left.args) == 1 \
                     and isinstance(e.left.args[0], ast.Constant) and e.left.args[0].value == b'\x00':
                 return f'(py_zero_bytes {self.ex(e.right)})'
@@ -269,6 +284,11 @@ class Fn:
             return out
         if isinstance(e, ast.UnaryOp) and isinstance(e.op, ast.Not):
             return f'(negb {self.tst(e.operand)})'
+        if isinstance(e, ast.Compare) and len(e.ops) == 2 and all(isinstance(o_, (ast.Lt, ast.LtE)) for o_ in e.ops):
+            # a <= b <= c: both comparisons (the operands here are pure, so evaluating b twice is harmless)
+            first = ast.Compare(left=e.left, ops=[e.ops[0]], comparators=[e.comparators[0]])
+            second = ast.Compare(left=e.comparators[0], ops=[e.ops[1]], comparators=[e.comparators[1]])
+            return f'(andb {self.tst(ast.copy_location(first, e))} {self.tst(ast.copy_location(second, e))})'
         if isinstance(e, ast.Compare):
             if len(e.ops) != 1:
                 err(e, 'chained comparison not supported')
@@ -758,6 +778,20 @@ class ObjFn(Fn):
             if self.call(st.value) is not None:
                 err(st, 'return of a call is not supported in a method of a plain object')
             return f'(s_return (fun l w => PTuple [{self.ex(st.value)}; {self.fld("self")} l]))'
+        if isinstance(st, ast.Assign) and len(st.targets) == 1 and isinstance(st.targets[0], ast.Attribute) \
+                and isinstance(st.targets[0].value, ast.Attribute) and st.targets[0].value.attr == 'f' \
+                and isinstance(st.targets[0].value.value, ast.Name) and st.targets[0].value.value.id == 'self' \
+                and self.call(st.value) is None:
+            # self.f.<name> = <pure expression>: Fields.__setattr__ on an existing field
+            sf = f'({self.fld("self")} l)'
+            return (f'(s_assign {self.self_setter("f")} (fun l w => py_fld_set (py_getattr {sf} "f") '
+                    f'{coq_str(st.targets[0].attr)} {self.ex(st.value)}))')
+        if isinstance(st, ast.AugAssign) and isinstance(st.target, ast.Attribute) and isinstance(st.target.value, ast.Name) \
+                and st.target.value.id == 'self' and isinstance(st.op, (ast.BitOr, ast.BitAnd)):
+            fn = 'py_or' if isinstance(st.op, ast.BitOr) else 'py_and'
+            sf = f'({self.fld("self")} l)'
+            return (f'(s_assign {self.self_setter(st.target.attr)} (fun l w => {fn} (py_getattr {sf} {coq_str(st.target.attr)}) '
+                    f'{self.ex(st.value)}))')
         if isinstance(st, ast.Assign) and len(st.targets) == 1:
             tgt = st.targets[0]
             call = self.call(st.value)
@@ -964,6 +998,46 @@ def emit_valget_v(path):
     L += ['', 'Section G.', 'Context {E : Type} (B : backend E) (sk : list N).', 'Notation fres := (@fres E).', '']
     L.append(f.emit())
     L += ['', 'End G.']
+    text = '\n'.join(L) + '\n'
+    with open(path, 'w') as fh:
+        fh.write(text)
+    return text
+
+
+HELPERS = [('ubxlib.ubx_cfg_rate', 'UbxCfgRate', ['set_rate_in_hz'], 'ghr_'),
+           ('ubxlib.ubx_cfg_cfg', 'UbxCfgCfgAction', ['save', 'reset'], 'ghc_'),
+           ('ubxlib.ubx_cfg_rst', 'UbxCfgRstAction', ['warm_start', 'cold_start', 'start', 'stop'], 'ghs_'),
+           ('ubxlib.ubx_upd_sos', 'UbxUpdSosAction', ['backup', 'clear'], 'ghu_'),
+           ('ubxlib.ubx_cfg_esfla', 'UbxCfgEsflaSet', ['set'], 'ghe_'),
+           ('ubxlib.ubx_mga_ini_time_utc', 'UbxMgaIniTimeUtc', ['set_datetime'], 'ght_'),
+           ('ubxlib.ubx_cfg_gnss', 'X4_Flags', ['enable', 'disable'], 'ghf_')]
+
+
+def emit_helpers_v(path):
+    """The straight-line convenience setters (CFG-RATE, CFG-CFG, CFG-RST, UPD-SOS, CFG-ESFLA set, MGA-INI-TIME_UTC) and the
+    enable/disable bit of a CFG-GNSS flags field -> gen/HelperKernels.v"""
+    import importlib
+    fns = []
+    for modname, clsname, methods, pre in HELPERS:
+        mod = importlib.import_module(modname)
+        cls = getattr(mod, clsname)
+        for m in methods:
+            if m not in cls.__dict__:
+                raise TranslateError(f'{clsname}.{m} is no longer defined in the class itself')
+            f = ObjFn(mod, cls, m, {}, prefix=pre)
+            f.short = pre[1:] + f.short
+            fns.append(f)
+    L = ['(* GENERATED on every run by py/vlib/translate_req.py from the ubx_*.py message modules in /repo. Do not edit. *)',
+         'From Coq Require Import String.',
+         'From Ubx Require Import Fields Base Checksum Frame ParserUbx ParserNmea CfgKeys Request PySem.',
+         'Open Scope N_scope.', '']
+    for f in fns:
+        L += f.record()
+    L += ['', 'Section G.', 'Context {E : Type} (B : backend E) (sk : list N).', 'Notation fres := (@fres E).', '']
+    for f in fns:
+        L.append(f.emit())
+        L.append('')
+    L.append('End G.')
     text = '\n'.join(L) + '\n'
     with open(path, 'w') as fh:
         fh.write(text)
